@@ -21,7 +21,7 @@ CONFIG = {"quick": {"shards": 8, "timeout_s": 600, "cases": 240},
           "thorough": {"shards": 16, "timeout_s": 3000, "cases": 5000, "env": {}}}
 REQUIRED_COUNTERS = ["pairs_compared_relabel", "pairs_compared_rows", "pairs_compared_creation",
                      "pairs_with_multi_section_pipes", "pairs_with_large_labels", "pairs_heating", "pairs_gas",
-                     "pairs_with_out_of_service", "pairs_with_pi_valves"]
+                     "pairs_with_out_of_service", "pairs_with_pi_valves", "pairs_compared_component_tables"]
 FEATS = [("valves", "pi_valves", "oos"), ("pump", "compressor", "multi_pump", "valves", "mass_storage"),
          ("flow_control", "press_control", "multi_grid"), ("heat_exchanger", "islands", "oos", "pi_valves", "closed"),
          ("valves", "pi_valves", "pump", "compressor", "flow_control", "press_control", "heat_exchanger",
@@ -54,7 +54,7 @@ def make(case):
                     friction_model=str(rng.choice(["nikuradse", "colebrook", "swamee-jain"])))
         if opts["friction_model"] == "colebrook":
             opts.update(tolerance_colebrook=1e-12, max_iter_colebrook=200)
-    if False and case["kind"] != "heat" and rng.random() < 0.3:     # switched off, see DESIGN.md section 6 (last row) and the open C06 finding
+    if case["kind"] != "heat" and rng.random() < 0.3:
         # a net that holds only the tables of the elements created, in the order of their first creation: the internal order of the
         # component tables follows the (shuffled) creation order
         sec = copy.deepcopy(base)
@@ -117,15 +117,18 @@ def run_case(case, ctx):
             tag = "t_outlet_misplaced" if all(d[2] == "t_outlet_k" for d in diffs) and vname != "creation" else \
                 "results_depend_on_" + vname
             if vname == "component_tables":
-                # Listed finding: in a Sector.NONE net the start temperatures of interior nodes (pipe sections, valve nodes) depend on
-                # the order in which the component tables were first created.  It only touches quantities that follow from
-                # temperatures (density, viscosity): the supply pattern and the flows prescribed by loads must still agree.
-                sv = snapshot(vnet)
-                same_pattern = all((math.isnan(r["p_bar"]) == math.isnan(sv["junction"][nm]["p_bar"])) for nm, r in s0["junction"].items())
-                # size is judged on pressures and mass flows (Reynolds number, friction factor, velocities follow the temperatures directly)
-                worst = max((abs(d[4] - d[5]) / max(abs(d[4]), abs(d[5]), 1e-300) for d in diffs if d[4] is not None and d[5] is not None
-                             and not (math.isnan(d[4]) or math.isnan(d[5])) and (str(d[2]).startswith("p_") or str(d[2]).startswith("mdot_"))), default=0.0)
-                if same_pattern and worst <= 5e-3 and not any(d[3].startswith(("table missing", "element missing")) for d in diffs):
+                # Which order matters?  Listed finding: interior nodes copy their junction's temperature before or after a feeder wrote
+                # its t_k there, depending on whether the feeder's table precedes the pipe / valve table.  Decided by a third run: the
+                # same Sector.NONE net with every node element created after all branch elements (the relative order of the default
+                # component list), branch tables still in shuffled order.  If that run agrees with the base, the difference belongs to
+                # the listed mechanism; if not, the order of the branch tables matters: violation.
+                NODE_EL = ("ext_grid", "sink", "source", "mass_storage")
+                alt = copy.deepcopy(vspec)
+                alt["elements"] = [e for e in alt["elements"] if e["kind"] not in NODE_EL] + [e for e in alt["elements"] if e["kind"] in NODE_EL]
+                anet = netgen.build(alt)
+                aout, _ = run_pipeflow(anet, opts)
+                obs.count("component_table_differences_examined")
+                if aout == "ok" and not diff_snapshots(s0, snapshot(anet), rtol=1e-7, atol=1e-9, col_atol={"reynolds": 1e-6, "qext_w": 1e-5})[0]:
                     tag = "interior_node_start_temperature_depends_on_table_order"
             obs.violate(tag, "%s variant (%s): %d of %d values differ, first res_%s[%s].%s %s"
                         % (vname, case["scheme"] if vname == "relabel" else "", len(diffs), n, t, name, col, msg),
